@@ -241,33 +241,49 @@ def effect_class(problems):
     return '+'.join(sorted(p[0] for p in problems))
 
 
-def sm_inject(world):
-    """state monitor: the whole injection alphabet against every IKE_SA with keys of every endpoint"""
-    for name in sorted(world.endpoints):
+STATE_LIST = []      # (class, history) of every distinct explored state, per worker process
+
+
+def sm_collect(world):
+    """state monitor of stage 1: remember every distinct state (as its history) with its attack classes"""
+    classes = tuple(state_class(world, world.endpoints[n]) for n in sorted(world.endpoints) if P.live(world.endpoints[n]))
+    STATE_LIST.append((classes, tuple(world.history)))
+    return ()
+
+
+def inject_state(job):
+    """stage 2 (one work unit): rebuild the state from its history and run the whole injection alphabet against the
+    endpoints named in the job"""
+    si, history, names = job
+    sc = SCEN[si]
+    world = build(sc)
+    P.replay_events(world, [e for e in history])
+    out = []
+    cover, outcomes = collections.Counter(), collections.Counter()
+    for name in names:
         ep = world.endpoints[name]
-        if not P.live(ep):
-            continue
-        cls = state_class(world, ep)
-        if ck.quick and cls in SEEN_CLASSES:
-            continue
-        SEEN_CLASSES.add(cls)
         for i, sa in enumerate(ep.controller.ike_sas):
             if sa.peer_crypto is None:
                 continue
-            COVER['sa-states:%s:%s' % ('initiator' if sa.is_initiator else 'responder', sa.state.name)] += 1
+            cover['sa-states:%s:%s' % ('initiator' if sa.is_initiator else 'responder', sa.state.name)] += 1
             for label, data in injections(world, ep, sa):
-                COVER['injections'] += 1
-                COVER['kind:' + label.split(':')[0]] += 1
+                cover['injections'] += 1
+                cover['kind:' + label.split(':')[0]] += 1
                 probs = check_one(world, name, i, label, data)
-                OUTCOMES[effect_class(probs) or 'inert'] += 1
+                outcomes[effect_class(probs) or 'inert'] += 1
                 for kind, msg in probs:
-                    # signature: what was injected (generator label without the byte position), receiver class, effect
-                    glabel = label
-                    yield ('M-quiet', '%s:%s:%s:%s' % (kind, glabel, 'initiator' if sa.is_initiator else 'responder',
-                                                       sa.state.name),
-                           '%s (IKE_SA %s of %s in %s): injected %s -> %s' % (
-                               kind, sa.my_spi.hex(), name, sa.state.name, label, msg),
-                           dict(inject=dict(ep=name, sa_index=i, label=label, data=data)))
+                    out.append(dict(monitor='M-quiet', signature='%s:%s:%s:%s' % (
+                        kind, label, 'initiator' if sa.is_initiator else 'responder', sa.state.name),
+                        message='%s (IKE_SA %s of %s in %s): injected %s -> %s' % (
+                            kind, sa.my_spi.hex(), name, sa.state.name, label, msg),
+                        history=list(history), detail=dict(inject=dict(ep=name, sa_index=i, label=label, data=data))))
+    seen = set()
+    uniq = []
+    for v in out:
+        if v['signature'] not in seen:
+            seen.add(v['signature'])
+            uniq.append(v)
+    return uniq, dict(cover), dict(outcomes)
 
 
 def direct_cases():
@@ -337,11 +353,12 @@ def direct_cases():
 
 def run(i):
     sc = SCEN[i]
-    ex = Explorer(lambda: build(sc), enabled_for(sc), P.apply_event, state_monitors=[sm_inject], extra_fn=P.budget_key,
+    del STATE_LIST[:]
+    ex = Explorer(lambda: build(sc), enabled_for(sc), P.apply_event, state_monitors=[sm_collect], extra_fn=P.budget_key,
                   abstraction_checks=10, replay_every=50, label='%s/%s' % (sc['start'], sc['config']), cover=COVER)
     ex.run()
     sm = ex.summary()
-    sm['outcomes'] = dict(OUTCOMES)
+    sm['state_list'] = list(STATE_LIST)
     return sm
 
 
@@ -366,13 +383,26 @@ def main():
         replay(ck.args.replay)
     stats, samples = [], []
     cover, outcomes = collections.Counter(), collections.Counter()
-    for sc, sm in zip(SCEN, ck.pmap(run, range(len(SCEN)))):
-        ck.add_explorer_violations(sm, sc)
-        stats.append({k: v for k, v in sm.items() if k not in ('violation_list', 'samples', 'cover', 'outcomes')})
-        cover.update(sm.get('cover', {}))
-        outcomes.update(sm.get('outcomes', {}))
+    jobs = []
+    seen_classes = set()
+    for si, (sc, sm) in enumerate(zip(SCEN, ck.pmap(run, range(len(SCEN))))):
+        stats.append({k: v for k, v in sm.items() if k not in ('violation_list', 'samples', 'cover', 'outcomes', 'state_list')})
         samples += sm['samples'][:1]
         print('  scenario', stats[-1])
+        for classes, history in sm['state_list']:
+            names = []
+            for cls in classes:
+                if ck.quick and cls in seen_classes:
+                    continue        # quick: one representative state per (endpoint, roles, states, material seen) class
+                seen_classes.add(cls)
+                names.append(cls[0])
+            if names:
+                jobs.append((si, history, tuple(names)))
+    jobs.sort(key=lambda j: -len(j[1]))
+    for (si, history, names), (viol, cov, outc) in zip(jobs, ck.pmap(inject_state, jobs)):
+        cover.update(cov)
+        outcomes.update(outc)
+        ck.add_explorer_violations(dict(violation_list=viol), SCEN[si])
     for sig, msg in direct_cases():
         ck.violation(sig, msg, dict(scenario=dict(direct=True), history=[]))
     m = merge_stats(stats)
@@ -381,7 +411,7 @@ def main():
                        exhaustive=m['completed'], injections=cover['injections'], direct_process_message_calls=COVER['direct-calls'],
                        injection_kinds={k[5:]: v for k, v in cover.items() if k.startswith('kind:')},
                        ike_sa_states_attacked={k[10:]: v for k, v in cover.items() if k.startswith('sa-states:')},
-                       distinct_effects=dict(outcomes), per_scenario=stats,
+                       distinct_effects=dict(outcomes), per_scenario=stats, states_attacked=len(jobs),
                        samples=samples + ['cleartext:exch=36:req:mid=exp:sa-ke-nonce', 'mutated:CCSA-req:byteicv0^01',
                                           'reprotected:INFO-req:sibling-ike-sa'],
                        bounds='every state of the one-trigger exploration (quick: one representative per (endpoint, '
